@@ -18,7 +18,7 @@
   size ≤ 2^31 (resp. < 2^31 = INT_MAX+1); `ring_move_head_size_witness` shows
   that the bound is necessary for the code as written (recorded finding).
 -/
-import IgrisModel.C03.Lemmas
+import IgrisModel.C03.More3
 namespace Igris.C03
 open Igris.Proto
 
@@ -400,5 +400,331 @@ theorem ring_getc_orig_ff_witness :
     (ringGetc ⟨1, 0, 4⟩ [0x80, 0, 0, 0]).map (·.2) = some 128 ∧
     (ringRead ⟨3, 0, 4⟩ [0x01, 0xFF, 0x02, 0] 3).map (·.2) = some [0x01, 0xFF, 0x02] := by
   decide
+
+/-! ## 9. extension: bulk operations = iterated single operations -/
+
+/-- `ring_write(d)` IS `ring_putc` applied to the bytes of `d` in order: same final
+head/tail, same buffer, return value = number of putc that answered 1; faults
+coincide.  No hypothesis: every state, every buffer, every data (there is no
+`memcpy` and no split into two chunks in ring.h — a write that wraps, fills
+exactly, or has length 0 is this same loop). -/
+theorem ring_write_is_iterated_putc (r : RingHead) (buf d : List Byte) :
+    ringWrite r buf d =
+      (runRing r buf (d.map Op.putc)).map fun (r', buf', outs) => (r', buf', countOnes outs) := by
+  have := writeAux_iterated d r buf 0
+  simpa [ringWrite] using this
+
+/-- `ring_read(n)` IS `n` times `ring_getc`: same final state, the bytes stored
+through `data` are the answers that were not −1, in order. -/
+theorem ring_read_is_iterated_getc (r : RingHead) (buf : List Byte) (n : Nat) :
+    ringRead r buf n =
+      (runRing r buf (List.replicate n Op.getc)).map fun (r', _, outs) => (r', getcBytes outs) := by
+  have := readWith_iterated buf n r []
+  simpa [ringRead] using this
+
+/-! ## 10. extension: `ring_for_each(n, r) BODY` -/
+
+/-- the loop the macro expands to, with ANY body `s = f(s, n, buffer[n])`,
+terminates (the loop test is evaluated `|q| + 1 ≤ size` times), never reads
+outside the buffer, and has applied the body to exactly the stored elements,
+oldest → newest, each once, `n` being the element's slot (`ring_for_each_visits`
+says which slots these are). -/
+theorem ring_for_each_body {α σ : Type} (r : RingHead) (buf q : List α) (f : σ → U32 → α → σ) (s : σ)
+    (h : Abs r buf q) :
+    ringForEachFold r buf f r.size.toNat r.tail s =
+      some (((ringForEach r r.size.toNat r.tail).zip q).foldl (fun s p => f s p.1 p.2) s) ∧
+    (ringForEach r r.size.toNat r.tail).length = q.length := by
+  have hlt : q.length < r.size.toNat := by have := cnt_lt r h.1; have := h.2.2.1; omega
+  refine ⟨forEachFold_spec f buf q r s _ h hlt, ?_⟩
+  have := congrArg List.length (ring_for_each_visits r h.1)
+  simpa [h.2.2.1] using this
+
+/-- in particular a body that collects `buffer[n]` collects the stored queue -/
+theorem ring_for_each_collects {α : Type} (r : RingHead) (buf q : List α) (h : Abs r buf q) :
+    ringForEachFold r buf (fun (acc : List α) _ x => acc ++ [x]) r.size.toNat r.tail [] = some q := by
+  obtain ⟨e, hl⟩ := ring_for_each_body r buf q (fun (acc : List α) _ x => acc ++ [x]) [] h
+  rw [e]
+  congr 1
+  generalize ringForEach r r.size.toNat r.tail = ns at hl
+  suffices H : ∀ (q : List α) (ns : List U32) (acc : List α), ns.length = q.length →
+      (ns.zip q).foldl (fun s p => s ++ [p.2]) acc = acc ++ q by simpa using H q ns [] hl
+  intro q
+  induction q with
+  | nil => intro ns acc _; simp
+  | cons x q ih =>
+    intro ns acc hn
+    cases ns with
+    | nil => simp at hn
+    | cons n ns =>
+      simp only [List.zip_cons_cons, List.foldl_cons]
+      rw [ih ns _ (by simpa using hn)]; simp
+
+example : Abs ⟨1, 3, 4⟩ ([0x80, 0, 0, 0xFF] : List Byte) [0xFF, 0x80] := by
+  refine ⟨by decide, by decide, by decide, ?_⟩
+  intro i hi
+  match i, hi with
+  | 0, _ => rfl
+  | 1, _ => rfl
+
+/-! ## 11. extension: bytering.h -/
+
+/-- bytering, single operations: `push` on a non-full ring stores the byte at the
+end of the queue and answers 0 (the unchecked variant does the same); on a full
+ring (`size − 1` bytes) it answers −1 and changes nothing; `pop` answers the
+OLDEST byte as 0..255 — never −1 — and removes it; on an empty ring it answers −1
+and changes nothing.  `start`/`end` never move. -/
+theorem bytering_push_pop (b : ByteRing) (mem q : List Byte) (c x : Byte) :
+    (BAbs b mem q → q.length < b.end_ - b.start - 1 →
+      ∃ b' mem', brPush b mem c = some (b', mem', 0) ∧ brPushNocheck b mem c = some (b', mem') ∧
+        b'.start = b.start ∧ b'.end_ = b.end_ ∧ BAbs b' mem' (q ++ [c])) ∧
+    (BAbs b mem q → q.length = b.end_ - b.start - 1 → brPush b mem c = some (b, mem, -1)) ∧
+    (BAbs b mem (x :: q) →
+      ∃ b' v, brPop b mem = some (b', v) ∧ brPopNocheck b mem = some (b', v) ∧ v = (x.toNat : Int) ∧
+        0 ≤ v ∧ v ≤ 255 ∧ v ≠ -1 ∧ BitVec.ofInt 8 v = x ∧ BAbs b' mem q) ∧
+    (BAbs b mem [] → brPop b mem = some (b, -1)) := by
+  refine ⟨fun h hr => babs_push c h hr, fun h hf => babs_push_full c h hf, fun h => ?_,
+    fun h => babs_pop_empty h⟩
+  obtain ⟨b', e, enc, -, -, ha⟩ := babs_pop h
+  exact ⟨b', _, e, enc, rfl, by omega, by omega, by omega, ofInt8_toNat x, ha⟩
+
+/-- bytering, counts and pointers: in every state that stores `q`,
+`bytering_empty ⇔ q = []`, `bytering_full ⇔ |q| = size − 1`, and head, tail lie in
+`[start, end)`. -/
+theorem bytering_counts (b : ByteRing) (mem q : List Byte) (h : BAbs b mem q) :
+    (brEmpty b = true ↔ q = []) ∧ (brFull b = true ↔ q.length = b.end_ - b.start - 1) ∧
+    b.start ≤ b.head ∧ b.head < b.end_ ∧ b.start ≤ b.tail ∧ b.tail < b.end_ := by
+  obtain ⟨wf, ha⟩ := h
+  obtain ⟨-, -, he, hf⟩ := ring_counts _ _ _ ha
+  rw [toRing_size wf] at hf
+  exact ⟨by rw [brEmpty_eq wf]; exact he, by rw [brFull_eq wf]; exact hf, wf.h1, wf.h2, wf.t1, wf.t2⟩
+
+/-- bytering_fifo: after `bytering_init(buf, size)` with ANY `1 ≤ size < 2^32` over
+a block of at least `size` bytes, EVERY sequence of push / pop (any length, any
+byte values, wrapping any number of times; sizes 1 and 2 included) runs without
+touching memory outside the block, EVERY answer equals that of the reference
+FIFO of capacity `size − 1` (so full rejects and empty rejects happen exactly
+where the reference's do), the final ring stores the final reference queue, and
+accepted bytes = delivered bytes ++ stored bytes: nothing lost, duplicated or
+altered. -/
+theorem bytering_refines_fifo_lossless (buf size : Nat) (mem : List Byte) (hs : 0 < size)
+    (hS : size < 2 ^ 32) (hm : size ≤ mem.length) (ops : List BOp) :
+    ∃ b' mem', runB (brInit buf size) mem ops = some (b', mem', (runSpecB (size - 1) [] ops).2) ∧
+      BAbs b' mem' (runSpecB (size - 1) [] ops).1 ∧ b'.start = buf ∧ b'.end_ = buf + size ∧
+      mem'.length = mem.length ∧
+      acceptedAllB ops (runSpecB (size - 1) [] ops).2 =
+        deliveredAllB ops (runSpecB (size - 1) [] ops).2 ++ (runSpecB (size - 1) [] ops).1 := by
+  obtain ⟨b', mem', e, h1, h2, h3, ha⟩ := runB_refines ops (babs_init buf size mem hs hS hm)
+  have hc : (brInit buf size).end_ - (brInit buf size).start - 1 = size - 1 := by
+    simp [brInit]
+  rw [hc] at e ha
+  refine ⟨b', mem', e, ha, h1, h2, h3, ?_⟩
+  have := specB_conserves (size - 1) ops []
+  simpa using this
+
+example : BAbs (brInit 4096 4) [0, 0, 0, 0] [] := babs_init 4096 4 _ (by decide) (by decide) (by decide)
+
+/-- what was repaired in bytering.h (the third defect, a missing `return` in a
+function declared `int`, has no model counterpart).  Pre-repair: a pushed byte is
+accepted (answer 0) and the following pop answers −1 — lost, because
+`__bytering_fixup` reset the pointer on every step.  With only that corrected,
+`bytering_full` (ring.h's formula with the roles of head and tail reversed)
+rejects the second byte of a ring of capacity 3.  Repaired: both bytes are
+accepted and come out in order, 0xFF as 255. -/
+theorem bytering_orig_witness :
+    ((brPushOrig (brInit 16 4) [0, 0, 0, 0] 0x41).map fun (_, _, rc) => rc) = some 0 ∧
+    ((brPushOrig (brInit 16 4) [0, 0, 0, 0] 0x41).bind fun (b, m, _) =>
+      (brPopOrig b m).map (·.2)) = some (-1) ∧
+    ((brPushOrig2 (brInit 16 4) [0, 0, 0, 0] 0x41).bind fun (b, m, _) =>
+      (brPushOrig2 b m 0xFF).map fun (_, _, rc) => rc) = some (-1) ∧
+    (runB (brInit 16 4) [0, 0, 0, 0] [.push 0x41, .push 0xFF, .pop, .pop, .pop]).map (·.2.2) =
+      some [0, 0, 0x41, 255, -1] := by
+  decide
+
+/-! ## 12. extension: igris::ring<T> — push when full, pop when empty, resize,
+copy, move, index_of -/
+
+/-- `push`/`emplace` have no fullness test.  On a FULL ring the head steps onto the
+tail: the ring reads as EMPTY, i.e. all `size − 1` stored elements and the new one
+are lost.  `pop` has no emptiness test: on an EMPTY ring the tail steps past the
+head and the ring reports `size − 1` (stale) elements.  Both stay inside the
+buffer.  Hence the exact contract of the typed ring, under which
+`ring_push_pop_tail` gives FIFO behaviour: push only if `room() > 0`, pop only if
+`!empty()`. -/
+theorem ring_push_full_pop_empty {α : Type} (t : TRing α) (q : List α) (x : α) :
+    (Abs t.r t.buf q → q.length = t.r.size.toNat - 1 →
+      ∃ t', t.push x = some t' ∧ t'.r.size = t.r.size ∧ Abs t'.r t'.buf []) ∧
+    (Abs t.r t.buf [] →
+      ∃ t', t.pop = some t' ∧ t'.r.size = t.r.size ∧ t'.r.WF ∧
+        (ringAvail t'.r).toNat = t.r.size.toNat - 1 ∧ ringFull t'.r = true) :=
+  ⟨fun h hf => TRing.push_full x h hf, fun h => TRing.pop_empty h⟩
+
+example : Abs (TRing.mk' (0 : Int) 0).r (TRing.mk' (0 : Int) 0).buf [] :=
+  (ring_ctor_resize_reset_bounds (0 : Int) TRing.empty 0 (by decide)).1.2.2
+
+/-- `resize(sz)` does NOT preserve the content: whatever the ring stored, the
+result is exactly the freshly constructed `ring(sz)` — empty, `sz` free slots,
+every element value-initialised. -/
+theorem ring_resize_discards {α : Type} (dflt : α) (t : TRing α) (sz : Nat) (hn : sz + 1 < 2 ^ 32) :
+    TRing.resize dflt t sz = TRing.mk' dflt sz ∧
+    Abs (TRing.resize dflt t sz).r (TRing.resize dflt t sz).buf [] ∧
+    (ringRoom (TRing.resize dflt t sz).r).toNat = sz := by
+  have ha := (ring_ctor_resize_reset_bounds dflt t sz hn).2.1
+  refine ⟨rfl, ha.2.2, ?_⟩
+  have := (ring_counts _ _ _ ha.2.2).2.1
+  rw [this, ha.1]; simp
+
+/-- the implicitly generated copy constructor and copy assignment produce a ring
+with the same indices over an equal, separate array: it stores the same queue.
+The move constructor hands the array over; the moved-from object keeps
+`r.size` but owns no storage, so any push on it writes outside (fault). -/
+theorem ring_copy_move {α : Type} (dflt : α) (t u : TRing α) (q : List α) (x : α)
+    (h : Abs t.r t.buf q) :
+    Abs (TRing.copy dflt t).r (TRing.copy dflt t).buf q ∧
+    Abs (TRing.assign u t).r (TRing.assign u t).buf q ∧
+    Abs t.move.1.r t.move.1.buf q ∧
+    t.move.2.r = t.r ∧ t.move.2.buf = [] ∧ t.move.2.push x = none := by
+  refine ⟨?_, ?_, h, rfl, rfl, ?_⟩
+  · simpa [TRing.copy, arrCopy_eq] using h
+  · simpa [TRing.assign] using h
+  · simp [TRing.move, TRing.push, poke]
+
+/-- `index_of(&buffer[i]) = i` (pointer difference in elements) -/
+theorem ring_index_of (base elem i : Nat) (he : 0 < elem) :
+    indexOf base elem (slotAddr base elem i) = i := by
+  simp [indexOf, slotAddr, Nat.mul_div_cancel _ he]
+
+/-! ## 13. extension: element lifetime of igris::ring<T> (finding
+C03-ring-element-lifetime), and for which `T` sections 6 and 12 are the whole truth
+
+FULL STATEMENT one would want: "every object constructed in the ring is destroyed
+exactly once".  False for the code as written (`ring_element_lifetime_witness`,
+`ring_lifetime_fresh_pushes_leak`, `ring_lifetime_pop_then_destroy`).  What holds:
+* the VALUE behaviour does not depend on the lifetime bookkeeping
+  (`ring_lifetime_values`): all FIFO / accessor theorems hold for every `T` as
+  statements about the stored values;
+* they are the complete description of the ring exactly for `T` whose
+  construction over a living object and whose repeated destruction have no
+  effect: trivially destructible `T` (and trivially copyable, for `read`/`write`,
+  which only exist for `T = char`).  For any other `T` the events counted by
+  `overLive` / `deadDtor` / `deadRead` are leaks resp. undefined behaviour;
+* stored elements are always living objects (`ring_lifetime_stored_live`). -/
+
+/-- the value component of the lifetime model is the typed-ring model -/
+theorem ring_lifetime_values {α : Type} (l : LRing α) (x : α) :
+    (l.push x).map (·.t) = l.t.push x ∧ l.pop.map (·.t) = l.t.pop :=
+  ⟨LRing.push_t l x, LRing.pop_t l⟩
+
+/-- after `ring(n)` (every slot already holds a living `T`), EVERY push of ANY
+sequence constructs over a living object whose destructor never runs: `k` pushes,
+`k` orphaned objects. -/
+theorem ring_lifetime_fresh_pushes_leak {α : Type} (dflt : α) (n : Nat) (hn : n + 1 < 2 ^ 32)
+    (xs : List α) :
+    ∃ l, LRing.pushAll (LRing.mk' dflt n) xs = some l ∧ l.overLive = xs.length ∧ l.deadDtor = 0 := by
+  have ha := (ring_ctor_resize_reset_bounds dflt TRing.empty n hn).1
+  obtain ⟨l, e, -, ho, hd⟩ := LRing.pushAll_allLive xs (LRing.mk' dflt n) (LRing.mk'_allLive dflt n)
+    ha.2.2.1 (by rw [show (LRing.mk' dflt n).t = TRing.mk' dflt n from rfl, ha.1, ha.2.1]; exact Nat.le_refl _)
+  exact ⟨l, e, by simpa [LRing.mk'] using ho, by simpa [LRing.mk'] using hd⟩
+
+/-- in ANY state, the slot a `pop` has destroyed is destroyed a second time when the
+ring goes out of scope right after (`~unbounded_array` runs `~T()` on every slot). -/
+theorem ring_lifetime_pop_then_destroy {α : Type} (l l' : LRing α) (e : l.pop = some l')
+    (hlen : l.live.length = l.t.buf.length) : l.deadDtor + 1 ≤ l'.destroy.deadDtor :=
+  LRing.pop_destroy e hlen
+
+/-- stored elements are living objects: the invariant holds after construction and
+is kept by every contract-respecting push and pop; a contract-respecting pop
+always destroys a LIVING object (no double destruction at that moment), and
+`tail()` of a non-empty ring refers to a living object. -/
+theorem ring_lifetime_stored_live {α : Type} (dflt : α) (n : Nat) (l l' : LRing α) (q : List α) (x y : α) :
+    LRing.StoredLive (LRing.mk' dflt n) ∧
+    (Abs l.t.r l.t.buf q → q.length < l.t.r.size.toNat - 1 → LRing.StoredLive l →
+      l.push x = some l' → LRing.StoredLive l') ∧
+    (Abs l.t.r l.t.buf (y :: q) → LRing.StoredLive l → l.pop = some l' →
+      LRing.StoredLive l' ∧ l.tailLive = true ∧ l'.deadDtor = l.deadDtor) :=
+  ⟨LRing.mk'_storedLive dflt n, fun ha hr hs e => LRing.push_storedLive ha hr hs e,
+   fun ha hs e => LRing.pop_storedLive ha hs e⟩
+
+/-- the finding on the model: `ring<T> r(1); r.push(a); r.pop();` and scope exit —
+one object constructed over a living one (orphaned), one object destroyed twice. -/
+theorem ring_element_lifetime_witness :
+    (((LRing.mk' (0 : Int) 1).push 7).bind fun l => l.pop.map fun l =>
+      (l.destroy.overLive, l.destroy.deadDtor)) = some (1, 1) := by
+  decide
+
+/-! ## 14. extension: ring_counter in `int` arithmetic, negative `i` -/
+
+/-- the exact precondition under which `ring_counter_correct` describes the C
+code: for a counter object with `0 < size ≤ INT_MAX`,
+`increment(a)` is free of signed overflow IFF `counter + a` fits an `int`,
+`prev(i)` / `last(i)` IFF `counter − i` fits; `set`, `fixup_pos` always; the
+fix-up loops themselves never overflow.  Inside the precondition the C functions
+are the unbounded-integer functions of `ring_counter_correct`. -/
+theorem ring_counter_int_exact (rc : RingCounter) (hs : 0 < rc.size) (hsI : inInt rc.size)
+    (x : Int) (hx : inInt x) :
+    rcIncrementC rc x = (if inInt (rc.counter + x) then some (rcIncrement rc x) else none) ∧
+    rcPrevC rc x = (if inInt (rc.counter - x) then some (rcPrev rc x) else none) ∧
+    rcLastC rc x = (if inInt (rc.counter - x) then some (rcLast rc x) else none) ∧
+    rcSetC rc x = some (rcSet rc x) ∧
+    rcFixupPosC rc x = some (rcFixupPos rc x) := by
+  have hfix : ∀ p, inInt p → rcFixupPosC rc p = some (rcFixupPos rc p) := fun p hp => by
+    simp only [rcFixupPosC, rcFixupPos, rcDownC_eq rc.size hs _ p hp, Option.bind_some]
+    exact rcUpC_eq rc.size hs hsI _ _ (rcDown_inInt rc.size hs _ p hp)
+  refine ⟨?_, ?_, ?_, ?_, hfix x hx⟩
+  · unfold rcIncrementC ckInt
+    split
+    · rename_i h
+      simp [rcDownC_eq rc.size hs _ _ h, rcIncrement, rcFixup]
+    · rfl
+  · unfold rcPrevC ckInt
+    split
+    · rename_i h
+      simp [rcUpC_eq rc.size hs hsI _ _ h, rcPrev]
+    · rfl
+  · unfold rcLastC ckInt
+    split
+    · rename_i h
+      simp [hfix _ h, rcLast]
+    · rfl
+  · simp [rcSetC, rcDownC_eq rc.size hs _ x hx, rcSet, rcFixup]
+
+example : inInt (5 : Int) ∧ inInt (2147483647 : Int) := by decide
+
+/-- beyond the preconditions.  (a) `counter + arg` = INT_MAX + 1: signed overflow
+(one less is fine).  (b) negative `i`: `ring_counter_prev(i)` is `(counter − i) mod
+size` only while `counter − i < size`; at `counter = 0, size = 3`, `prev(−2) = 2`
+but `prev(−3) = 3 = size`, and `cyclic_buffer<T>(3)[−3]` reads `data[3]`, outside
+the array (`none`), while `[−2]` is inside.  (c) a negative increment below 0
+leaves the counter negative (the fix-up loop only subtracts). -/
+theorem ring_counter_beyond_witness :
+    rcIncrementC ⟨5, 2147483647⟩ 2147483643 = none ∧
+    (rcIncrementC ⟨5, 2147483647⟩ 2147483642).map (·.counter) = some 0 ∧
+    rcPrev ⟨0, 3⟩ (-2) = 2 ∧ rcPrev ⟨0, 3⟩ (-3) = 3 ∧
+    (Cyclic.mk' (0 : Int) 3).nth (-3) = none ∧ ((Cyclic.mk' (0 : Int) 3).nth (-2)).isSome = true ∧
+    (rcIncrement ⟨0, 3⟩ (-1)).counter = -1 := by
+  decide
+
+/-! ## 15. extension: igris::ring<T> over arbitrary histories -/
+
+/-- ring_typed_fifo_lossless: construct `igris::ring<T>(n)` for ANY `n` with
+`n + 1 < 2^32` (n = 0, 1, 2 included) and apply ANY interleaving of `push` /
+`emplace` and `tail(); pop()` that respects the contract of the typed ring
+(`runSpecT ≠ none`: push only with room, pop only when non-empty — the code does
+not test, `ring_push_full_pop_empty`), wrapping any number of times.  Then no
+access leaves the buffer, every `tail()` returns what the reference queue of
+capacity `n` delivers, the final ring stores the final reference queue, and
+pushed = delivered ++ stored, for every element type `T` (as values; see §13
+for object lifetime).  `ring<char>::read/write` are `ring_read`/`ring_write` on
+`(r, buffer)`: `ring_refines_fifo_partial` applies to them verbatim. -/
+theorem ring_typed_fifo_lossless {α : Type} (dflt : α) (n : Nat) (hn : n + 1 < 2 ^ 32)
+    (ops : List (TOp α)) (q' : List α) (outs : List (Option α))
+    (hspec : runSpecT n [] ops = some (q', outs)) :
+    ∃ t', runT (TRing.mk' dflt n) ops = some (t', outs) ∧ Abs t'.r t'.buf q' ∧
+      t'.r.size.toNat = n + 1 ∧ pushedT ops = deliveredT outs ++ q' := by
+  have ha := (ring_ctor_resize_reset_bounds dflt TRing.empty n hn).1
+  obtain ⟨t', e, hs, h'⟩ := runT_refines ops ha.2.2 (by rw [ha.1]; simpa using hspec)
+  have := specT_conserves n ops hspec
+  exact ⟨t', e, h', by rw [hs, ha.1], by simpa using this⟩
+
+example : (runSpecT 1 ([] : List Int) [.push 7, .pop, .push 8, .pop]).isSome := by decide
 
 end Igris.C03
